@@ -152,14 +152,21 @@ def run(chk):
                                                                  "[0] == 0" in ast.unparse(node.test)) else None)
             r = analyse(chk, q, freq_args(withspec), setup=setup)
             cc = c + "(f[0]==0: %s)" % zero_bin
+            # the direct form may take its weights from the matrix builder (delegation between the two siblings): the window is then built there
+            _deleg = [e.callee for e in r.events("call") if e.callee.endswith(".calc_smoothing_matrix_konno_1998") and e.callee != q]
+            def ev(kind_, r=r, _deleg=_deleg):
+                out_ = list(r.events(kind_, q))
+                for d_ in _deleg[:1]:
+                    out_ += [e for e in r.events(kind_, d_) if not any(e is x for x in out_)]
+                return out_
             unmodelled_in(r, chk, "R-KO-NORM", cc)
             # 0/0 replacement
-            wh = [e for e in r.events("lib-call", q) if e.name == "numpy.where" and len(e.args) == 3]
+            wh = [e for e in ev("lib-call") if e.name == "numpy.where" and len(e.args) == 3]
             okw = len(wh) == 1 and wh[0].args[1].has_const() and wh[0].args[1].const == 1 and (wh[0].args[0].note or "") == "cmp:Eq"
-            cmps = [e for e in r.events("compare", q) if e.op == "Eq" and e.right.has_const() and e.right.const == 0 and
+            cmps = [e for e in ev("compare") if e.op == "Eq" and e.right.has_const() and e.right.const == 0 and
                     "p:band" in e.left.tags]
             # the same replacement written as a store through the mask: weights[argument == 0] = 1
-            masked = [e for e in r.events("mutation", q) if e.how == "subscript-store" and e.index is not None and e.index.kind == K_ARRAY and
+            masked = [e for e in ev("mutation") if e.how == "subscript-store" and e.index is not None and e.index.kind == K_ARRAY and
                       e.index.dtype == "bool" and (e.index.note or "") == "cmp:Eq" and e.value is not None and e.value.has_const() and
                       e.value.const == 1 and not isinstance(e.value.const, bool)]
             if not wh and len(masked) == 1:
@@ -171,7 +178,7 @@ def run(chk):
                 expect(chk, "R-KO-NONNEG", cc + "{weights}", wh[0].args[2], sign="nonneg", const_in=[R], loc=wh[0].loc)
             elif len(masked) == 1:
                 expect(chk, "R-KO-NONNEG", cc + "{weights}", masked[0].target, sign="nonneg", const_in=[R], loc=masked[0].loc)
-            sums = [e for e in r.events("lib-call", q) if e.name == "numpy.sum"]
+            sums = [e for e in ev("lib-call") if e.name == "numpy.sum"]
             axes = [(e.kwargs.get("axis") or (e.args[1] if len(e.args) > 1 else const_av(None))) for e in sums]
             axv = [a.const if a.has_const() else "?" for a in axes]
             want_n = 2 if withspec else 1
@@ -179,7 +186,7 @@ def run(chk):
                    len(sums) == want_n and all(a == 0 for a in axv), derived="sum axes %s" % axv, loc=sums[0].loc if sums else r.fi.loc())
             if sums:
                 expect(chk, "R-KO-NORM", cc + "{normaliser}", sums[0].args[0], sign="nonneg", tags_has=["p:band"], loc=sums[0].loc)
-            divs = [e for e in r.events("mutation", q) if e.how == "augassign"]
+            divs = [e for e in ev("mutation") if e.how == "augassign"]
             if withspec:
                 expect(chk, "R-KO-NORM", cc + ".result", r.ret, shape=("F",), deg={R: 1}, parity={R: "even"}, sign="nonneg",
                        tags_has=["abs", "p:fa_spectrum", "p:band"], loc=r.fi.loc())
@@ -193,7 +200,7 @@ def run(chk):
                    not mm, derived="; ".join("%s: %r vs %r" % (e.loc, e.dims[0], e.dims[1]) for e in mm) or "all operand shapes agree",
                    loc=mm[0].loc if mm else r.fi.loc())
             if zero_bin:
-                first = [e for e in r.events("subscript", q) if e.base.origin and "p:fa_frequencies" in e.base.origin and e.index.kind == K_SLICE]
+                first = [e for e in ev("subscript") if e.base.origin and "p:fa_frequencies" in e.base.origin and e.index.kind == K_SLICE]
                 chk.ob("R-KO-ZERO", cc + "{drop}", "frequencies are sliced [1:] on the zero-bin branch", any(
                     e.index.items[0] is not None and e.index.items[0].has_const() and e.index.items[0].const == 1 for e in first),
                     derived="%d slices of the frequency argument" % len(first), loc=r.fi.loc())
@@ -233,12 +240,12 @@ def run(chk):
         oksl = len(sl) == 1 and sl[0].index.items[0] is not None and sl[0].index.items[0].has_const() and \
             sl[0].index.items[0].const == 1 and sl[0].index.items[1] is None
         chk.ob("R-KO-ZERO", c + "{slice}", "the spectrum is sliced [1:] (the zero-frequency bin is the one dropped)", oksl,
-               derived="%d slice(s) of the spectrum" % len(sl), loc=dots[0].loc)
+               derived="%d slice(s) of the spectrum" % len(sl), loc=dots[0].loc, inconclusive=not sl)
         chk.ob("R-KO-ZERO", c + "{bin 0}", "the spectrum operand drops bin 0 (length points - 1)", amp.length() == full - 1,
-               derived="length %r (spectrum has %r bins)" % (amp.length(), full), loc=dots[0].loc)
+               derived="length %r (spectrum has %r bins)" % (amp.length(), full), loc=dots[0].loc, inconclusive=amp.length() is None)
         expect(chk, "R-KO-ARG", c + "{amplitude}", amp, deg={R: 1}, parity={R: "even"}, sign="nonneg", tags_has=["abs", "fft:fft"], loc=dots[0].loc)
     else:
-        chk.ob("R-KO-ZERO", c, "one matrix product", False, derived="%d" % len(dots), loc=r.fi.loc())
+        chk.ob("R-KO-ZERO", c, "one matrix product", False, derived="%d" % len(dots), loc=r.fi.loc(), inconclusive=not dots)
     bandwidth_rules(chk)
     chk.floor("R-KO-NONNEG", 10)
     chk.floor("R-KO-NORM", 20)
@@ -294,6 +301,20 @@ def bandwidth_rules(chk):
             if tk:
                 expect(chk, "R-BW", c + "{frequencies}", tk[0].args[0], tags_has=["attr:_smooth_fa_freqs"], tags_not=["fft:fft"], loc=tk[0].loc)
             continue
+        # the index array of the mask is read at its two ends only: a literal position other than [0] / [-1] is a located wrong instance
+        lit_ = [x for x in r.events("subscript") if "where-index" in x.base.tags and x.base.kind == K_ARRAY and x.index.kind == K_SCALAR and
+                x.index.has_const() and isinstance(x.index.const, int) and not isinstance(x.index.const, bool) and x.index.const not in (0, -1)]
+        if lit_:
+            chk.ob("R-BW", c + "{end positions}", "the index array of the mask is read at [0] (first) and [-1] (last) only", False,
+                   derived="read at literal position [%d]" % lit_[0].index.const, loc=lit_[0].loc, stmt=lit_[0].stmt)
+        rf_ = getattr(r.I, "revfirst", None) or {}
+        miss_ = [e for e in r.I.events if e.kind == "idiom-miss"] + \
+            [x for x in r.events("subscript") if x.index.kind == K_SCALAR and x.index.sym is not None and len(x.index.sym.t) == 1 and x.index.sym.c == 0 and
+             x.index.sym.t[0][1] == 1 and x.index.sym.t[0][0] in rf_]
+        if miss_:
+            chk.ob("R-BW", c + "{mask ends}", "first True = argmax(mask), last True = len(mask) - 1 - argmax(mask reversed)", False,
+                   derived=miss_[0].get("what") or "a position counted from the end of the mask is used as a position from its start", loc=miss_[0].loc,
+                   stmt=miss_[0].get("stmt"))
         vals = list(r.ret.items) if r.ret.items is not None else [r.ret]
         if len(vals) != len(outs):
             chk.ob("R-BW", c + "{results}", "%d result(s)" % len(outs), False, derived="%d" % len(vals), loc=r.fi.loc())
@@ -314,7 +335,9 @@ def bandwidth_rules(chk):
                     x.index.ext[0] == ("lo" if which == "first" else "hi")]
             ok = bool(subs) and all("fft:fft" not in x.base.tags and "attr:_smooth_fa_freqs" in x.base.tags for x in subs)
             chk.ob("R-BW", c + ".%s[source]" % which, "read from the smoothing-frequency array", ok,
-                   derived="%d read(s) at the %s index" % (len(subs), which), loc=subs[0].loc if subs else r.fi.loc())
+                   derived="%d read(s) at the %s index" % (len(subs), which), loc=subs[0].loc if subs else r.fi.loc(),
+                   # a read from the spectrum itself is the located wrong source; no read located, or a base whose provenance was not derived, is not
+                   inconclusive=(not subs) or not any("fft:fft" in x.base.tags for x in subs))
     # the threshold itself: a fraction of the maximum in the bandwidth helpers (max * ratio, ratio < 1), the maximum divided by the ratio in
     # the significant-range helper (max / ratio, ratio > 1)
     for q_, expo_ in (("eqsig.im.calc_bandwidth_freqs", 1), ("eqsig.im.calc_bandwidth_f_min", 1), ("eqsig.im.calc_bandwidth_f_max", 1),
